@@ -33,7 +33,7 @@ package stree
 //@+     && (forall k int :: {x.left.rep[k]} inK(x.left, k) ==> x.rep[k] == x.left.rep[k])
 //@+     && (forall k int :: {x.right.rep[k]} inK(x.right, k) ==> x.rep[k] == x.right.rep[k])
 //@+     && (forall y ref :: {y in x.left.desc} {y in x.right.desc} !(inD(x.left, y) && inD(x.right, y)))
-//@ pred closed(y *node[T]) := (forall z *node[T] :: {z in y.desc} z in y.desc ==> (forall w ref :: {w in z.desc} w in z.desc ==> w in y.desc) && (forall k int :: {k in z.keys} k in z.keys ==> k in y.keys && z.rep[k] == y.rep[k]))
+//@ pred closed(y *node[T]) := (forall z *node[T] :: {z in y.desc} z in y.desc ==> (forall w ref :: {w in z.desc, w in y.desc} w in z.desc ==> w in y.desc) && (forall k int :: {k in z.keys, k in y.keys} k in z.keys ==> k in y.keys && z.rep[k] == y.rep[k]))
 //@ pred treeOK(n *node[T], cmp func(T, T) int) := n != nil ==> allocated(n) && n in n.desc
 //@+     && (forall y *node[T] :: {y in n.desc} y in n.desc ==> y != nil && allocated(y) && local(y, cmp) && closed(y))
 //@ pred treeInv(t *Tree[T]) := t != nil && treeOK(t.root, t.compare)
